@@ -82,6 +82,9 @@ mod gv {
 
 macro_rules! rt_text {
     ($h:ident, $gv:expr, $pos:expr, $n:expr, $sig:expr) => {
+        rt_text!($h, $gv, $pos, $n, $sig, kani::any());
+    };
+    ($h:ident, $gv:expr, $pos:expr, $n:expr, $sig:expr, $be:expr) => {
         #[kani::proof]
         #[kani::unwind(9)]
         #[kani::stub(alloc::fmt::format, no_format)]
@@ -93,7 +96,7 @@ macro_rules! rt_text {
             let tn: usize = $n;
             let tb: &'static [u8; 3] = Box::leak(Box::new(tb));
             let s: &'static str = unsafe { core::str::from_utf8_unchecked(&tb[..tn]) };
-            let be: bool = kani::any();
+            let be: bool = $be;
             let c = ctx_f($gv, $pos, be);
             let mut buf = [0u8; 16];
             let mut cur = Cursor::new(&mut buf[..]);
@@ -110,8 +113,7 @@ macro_rules! rt_text {
             let d = data.deserialize_for_signature::<_, &str>($sig);
             match &d {
                 Ok((back, used)) => {
-                    kani::cover!(be, "big endian");
-                    kani::cover!(!be, "little endian");
+                    kani::cover!(true, "round trip completed");
                     assert!(*used == n, "decoder did not consume exactly the encoded length");
                     let bb = back.as_bytes();
                     assert!(bb.len() == tn, "round trip changed the text length");
@@ -127,9 +129,21 @@ macro_rules! rt_text {
         }
     };
 }
-rt_text!(c02_rt_dbus_s_n0, false, 0, 0, Signature::Str);
-rt_text!(c02_rt_dbus_s_n2, false, 1, 2, Signature::Str);
+rt_text!(c02_rt_dbus_s_n0_le, false, 0, 0, Signature::Str, false);
 #[cfg(feature = "gvariant")]
-rt_text!(c02_rt_gv_s_n0, true, 0, 0, Signature::Str);
+rt_text!(c02_rt_gv_s_n0_le, true, 0, 0, Signature::Str, false);
+rt_text!(c02_rt_dbus_s_n0_be, false, 0, 0, Signature::Str, true);
 #[cfg(feature = "gvariant")]
-rt_text!(c02_rt_gv_s_n2, true, 1, 2, Signature::Str);
+rt_text!(c02_rt_gv_s_n0_be, true, 0, 0, Signature::Str, true);
+rt_text!(c02_rt_dbus_s_n1_le, false, 3, 1, Signature::Str, false);
+#[cfg(feature = "gvariant")]
+rt_text!(c02_rt_gv_s_n1_le, true, 3, 1, Signature::Str, false);
+rt_text!(c02_rt_dbus_s_n1_be, false, 3, 1, Signature::Str, true);
+#[cfg(feature = "gvariant")]
+rt_text!(c02_rt_gv_s_n1_be, true, 3, 1, Signature::Str, true);
+rt_text!(c02_rt_dbus_s_n3_le, false, 1, 3, Signature::Str, false);
+#[cfg(feature = "gvariant")]
+rt_text!(c02_rt_gv_s_n3_le, true, 1, 3, Signature::Str, false);
+rt_text!(c02_rt_dbus_s_n3_be, false, 1, 3, Signature::Str, true);
+#[cfg(feature = "gvariant")]
+rt_text!(c02_rt_gv_s_n3_be, true, 1, 3, Signature::Str, true);
